@@ -310,4 +310,6 @@ def plan(tier):
         specs += [{"sub": "cli", "kind": "hyp", "examples": 15000} for _ in range(4)]
         specs += [{"sub": "api", "kind": "sweep", "what": "poly", "maxlen": 16},
                   {"sub": "api", "kind": "sweep", "what": "n", "maxlen": 10}]
+    if tier == "thorough":
+        specs.append({"sub": "api", "kind": "hyp", "examples": 40000, "asan": True})
     return specs
